@@ -32,6 +32,14 @@ class Budget(Exception):
     pass
 
 
+NASTY_COMMS = [b"p%d", b"a b %d", b") R 1 (%d", b"x) S 0 0 %d", b"((%d))", b"%d 1 2 3 4", b"\xff%d", b"p%d", b"p%d"]
+
+
+def nasty_comm(pid):
+    """Names with spaces / parentheses / digits: the parent pid must be read from the field after the LAST ')'."""
+    return (NASTY_COMMS[pid % len(NASTY_COMMS)] % pid)[:15]
+
+
 def ref_children(procs, caller, recursive):
     """procs: {pid: (ppid, start)}; -> set of pids"""
     cstart = procs[caller][1]
@@ -142,7 +150,7 @@ def run_case(case, acc):
     t.reparent = case.get("reparent", False)
     for pid in sorted(procs):
         pp, st = procs[pid]
-        t.spawn(pid, st, ppid=pp, comm=b"p%d" % pid)
+        t.spawn(pid, st, ppid=pp, comm=nasty_comm(pid))
     vk = vkernel.VK()
     vk.table = t
     vk.mount("/vproc", t)
@@ -187,7 +195,7 @@ def run_case(case, acc):
                 t.procs.pop(pid)
             for pid in sorted(procs):
                 pp, st = procs[pid]
-                t.spawn(pid, st, ppid=pp, comm=b"p%d" % pid)
+                t.spawn(pid, st, ppid=pp, comm=nasty_comm(pid))
             feats.add("stale_process_iter_cache")
         pr = ps.Process(caller)
         if case.get("recycle"):
@@ -269,7 +277,7 @@ def run_case(case, acc):
                     t.procs.pop(p)
                 for pid in sorted(procs):
                     pp, st = procs[pid]
-                    t.spawn(pid, st, ppid=pp, comm=b"p%d" % pid)
+                    t.spawn(pid, st, ppid=pp, comm=nasty_comm(pid))
                 pr = ps.Process(caller)
         if not case.get("vanish"):
             ps.pids()   # fresh lowest-pid knowledge, as the statement's rule is evaluated on the current table
